@@ -310,6 +310,69 @@ func NAME(a int, b int) (res int) {
 	return res
 }
 `))
+	// comparisons on defined (named) integer and string types
+	n = next()
+	out = append(out, tmpl(n, SigIS, true, []string{"named-type-compare", "branch"}, nil, `func NAME(a int, s string) (res int) {
+	lv, lim := Level(a), Level(`+c("7", "3")+`)
+	if lv `+c(">=", ">")+` lim {
+		res = 1
+		trace(a)
+	} else {
+		res = 2
+	}
+	k := Key(s)
+	if k `+c(">", ">=")+` Key("b") {
+		res += 10
+	} else {
+		res += 20
+		trace(len(s))
+	}
+	return res
+}
+`))
+
+	// a duplicated side effect inside a branch (not in the entry block)
+	n = next()
+	out = append(out, tmpl(n, SigII, true, []string{"effect", "effect-dup", "branch"}, nil, `func NAME(a int, b int) (res int) {
+	if a > `+c("0", "2")+` {
+		trace(b)
+		trace(b)
+		res = a
+	}
+	ch := make(chan int, 4)
+	if b > 1 {
+		ch <- a
+		ch <- a
+	}
+	return res + len(ch)
+}
+`))
+
+	n = next()
+	out = append(out, tmpl(n, SigII, true, []string{"effect", "effect-dup", "branch"}, nil, `func NAME(a int, b int) (res int) {
+	if b > `+c("0", "1")+` {
+		trace(a)
+		trace(a)
+	}
+	return a
+}
+`))
+
+	// two induction variables whose start values hang off one long arithmetic chain computed
+	// before the loop (deeper than the SCEV depth limit), advanced in the opposite order of
+	// their header phis
+	{
+		chain, mid := 110+r.Intn(40), 40+r.Intn(40)
+		var b strings.Builder
+		b.WriteString("func NAME(xs []int, n int) (res int) {\n\tx0 := n & 3\n")
+		for k := 1; k <= chain; k++ {
+			fmt.Fprintf(&b, "\tx%d := x%d + 1\n", k, k-1)
+		}
+		fmt.Fprintf(&b, "\tfor i, j := x%d, x%d; i < x%d+6; j, i = j+1, i+1 {\n\t\ttick()\n\t\tif j&1 == 0 {\n\t\t\tres += i\n\t\t} else {\n\t\t\tres -= j\n\t\t}\n\t}\n\treturn res + len(xs)\n}\n", chain, mid, chain)
+		n = next()
+		out = append(out, tmpl(n, SigXI, true, []string{"deep-chain-ivs", "loop-up"}, nil, strings.ReplaceAll(b.String(), "\\n", "\n")))
+	}
+
 	// long string literals whose multi-byte runes straddle every byte offset class
 	euro := strings.Repeat("€", 100+r.Intn(30))
 	big := strings.Repeat("é€", 900+r.Intn(50))
